@@ -15,6 +15,55 @@ import copy
 import random
 
 
+# --- call forms -------------------------------------------------------------------------
+# The same public call may be written with its arguments by keyword or positionally in the documented
+# order (docstrings / signatures of the pinned tree, recorded here).  FORMS["rng"] (set by ./check)
+# chooses, per call, how many leading arguments are passed positionally; None = one fixed form.
+FORMS = {"rng": None}
+ORDER = {
+    "Link": ("nb_segments", "lanes", "length", "maximum_density", "critical_density", "free_flow_velocity", "a", "turnrate", "name"),
+    "MeteredOnRamp": ("capacity", "flow_eq_type", "name"),
+    "named": ("name",),
+    "add_link": ("node_up", "link", "node_down"),
+    "add_origin": ("origin", "node"),
+    "add_destination": ("destination", "node"),
+    "add_path": ("path", "origin", "destination"),
+    "Network.step": ("init_conditions", "engine", "positive_init_speed", "positive_init_density", "positive_init_queue",
+                     "positive_next_speed", "positive_next_density", "positive_next_queue"),
+    "Link.init_vars": ("init_conditions", "engine", "positive_init_speed", "positive_init_density"),
+    "LinkWithVsl.init_vars": ("init_conditions", "engine"),
+    "Origin.init_vars": ("init_conditions", "engine", "positive_init_queue"),
+    "Destination.init_vars": ("init_conditions", "engine"),
+    "Link.step": ("net", "tau", "eta", "kappa", "T", "delta", "phi", "engine", "positive_next_speed", "positive_next_density"),
+    "Origin.step": ("net", "T", "engine", "positive_next_queue"),
+    "to_function": ("net", "compact", "more_out", "parameters"),
+}
+
+
+def callform(fn, order, values, default_k=0, extra=None, rng="default"):
+    """Calls fn with `values` ({documented name: value}); the first k documented parameters positionally
+    (k random when FORMS['rng'] is set, else default_k), the others by keyword.  extra: keyword-only /
+    undocumented-order arguments, always by keyword."""
+    r = FORMS["rng"] if rng == "default" else rng
+    maxpos = 0
+    for n in order:
+        if n in values:
+            maxpos += 1
+        else:
+            break
+    k = min(default_k, maxpos) if r is None else (r.randint(0, maxpos) if r.random() < 0.7 else min(default_k, maxpos))
+    args = [values[n] for n in order[:k]]
+    kw = {n: v for n, v in values.items() if n not in order[:k]}
+    if extra:
+        kw.update(extra)
+    return fn(*args, **kw)
+
+
+def fresh(s):
+    """An equal string that is not the interned literal (as if read from a configuration file)."""
+    return "".join(list(s)) if isinstance(s, str) else s
+
+
 class Built:
     """A live network with id -> object maps."""
 
@@ -49,49 +98,33 @@ def make_objects(M, desc, param_override=None, node_names=None):
     """
     po = param_override or {}
     nodes = {
-        n: M.Node(name=(node_names or {}).get(n, n)) for n in desc["nodes"]
+        n: callform(M.Node, ORDER["named"], {"name": (node_names or {}).get(n, n)}) for n in desc["nodes"]
     }
     links = {}
     for l in desc["links"]:
         g = lambda a, l=l: po.get((l["id"], a), l[a])  # noqa: E731
-        args = (
-            l["N"],
-            g("lam"),
-            g("L"),
-            g("rho_max"),
-            g("rho_crit"),
-            g("v_free"),
-            g("a"),
-            g("beta"),
-        )
+        vals = dict(zip(ORDER["Link"], (l["N"], g("lam"), g("L"), g("rho_max"), g("rho_crit"), g("v_free"), g("a"), g("beta"), l["name"])))
         if l.get("vsl") is not None:
-            links[l["id"]] = M.LinkWithVsl(
-                *args,
-                name=l["name"],
-                segments_with_vsl=set(l["vsl"]),
-                alpha=g("alpha"),
-            )
+            links[l["id"]] = callform(M.LinkWithVsl, ORDER["Link"], vals, 8,
+                                      extra={"segments_with_vsl": set(l["vsl"]), "alpha": g("alpha")})
         else:
-            links[l["id"]] = M.Link(*args, name=l["name"])
+            links[l["id"]] = callform(M.Link, ORDER["Link"], vals, 8)
     origins = {}
     for o in desc["origins"]:
         C = po.get((o["id"], "C"), o.get("C"))
         if o["kind"] == "ideal":
-            origins[o["id"]] = M.Origin(name=o["name"])
+            origins[o["id"]] = callform(M.Origin, ORDER["named"], {"name": o["name"]})
         elif o["kind"] == "main":
-            origins[o["id"]] = M.MainstreamOrigin(name=o["name"])
-        elif o["kind"] == "ramp":
-            origins[o["id"]] = M.MeteredOnRamp(C, o["eq"], name=o["name"])
-        elif o["kind"] == "simple":
-            origins[o["id"]] = M.SimplifiedMeteredOnRamp(C, o["eq"], name=o["name"])
+            origins[o["id"]] = callform(M.MainstreamOrigin, ORDER["named"], {"name": o["name"]})
+        elif o["kind"] in ("ramp", "simple"):
+            cls = M.MeteredOnRamp if o["kind"] == "ramp" else M.SimplifiedMeteredOnRamp
+            origins[o["id"]] = callform(cls, ORDER["MeteredOnRamp"], {"capacity": C, "flow_eq_type": fresh(o["eq"]), "name": o["name"]}, 2)
         else:
             raise ValueError(o["kind"])
     dests = {}
     for d in desc["dests"]:
-        if d["kind"] == "free":
-            dests[d["id"]] = M.Destination(name=d["name"])
-        else:
-            dests[d["id"]] = M.CongestedDestination(name=d["name"])
+        cls = M.Destination if d["kind"] == "free" else M.CongestedDestination
+        dests[d["id"]] = callform(cls, ORDER["named"], {"name": d["name"]})
     return nodes, links, origins, dests
 
 
@@ -143,7 +176,7 @@ def build(M, desc, ops=None, param_override=None, node_names=None, net_name=None
         for k in table:
             if reuse and k in reuse:
                 table[k] = reuse[k]
-    net = M.Network(name=net_name)
+    net = callform(M.Network, ORDER["named"], {"name": net_name})
     linkd = {l["id"]: l for l in desc["links"]}
     orgd = {o["id"]: o for o in desc["origins"]}
     dstd = {d["id"]: d for d in desc["dests"]}
@@ -155,7 +188,7 @@ def build(M, desc, ops=None, param_override=None, node_names=None, net_name=None
             net.add_nodes([nodes[n] for n in op[1]])
         elif k == "link":
             l = linkd[op[1]]
-            net.add_link(nodes[l["up"]], links[op[1]], nodes[l["down"]])
+            callform(net.add_link, ORDER["add_link"], {"node_up": nodes[l["up"]], "link": links[op[1]], "node_down": nodes[l["down"]]}, 3)
         elif k == "links":
             net.add_links(
                 [
@@ -165,11 +198,11 @@ def build(M, desc, ops=None, param_override=None, node_names=None, net_name=None
             )
         elif k == "path":
             l = linkd[op[1]]
-            net.add_path((nodes[l["up"]], links[op[1]], nodes[l["down"]]))
+            callform(net.add_path, ORDER["add_path"], {"path": (nodes[l["up"]], links[op[1]], nodes[l["down"]])}, 1)
         elif k == "origin":
-            net.add_origin(origins[op[1]], nodes[orgd[op[1]]["node"]])
+            callform(net.add_origin, ORDER["add_origin"], {"origin": origins[op[1]], "node": nodes[orgd[op[1]]["node"]]}, 2)
         elif k == "dest":
-            net.add_destination(dests[op[1]], nodes[dstd[op[1]]["node"]])
+            callform(net.add_destination, ORDER["add_destination"], {"destination": dests[op[1]], "node": nodes[dstd[op[1]]["node"]]}, 2)
         else:
             raise ValueError(op)
     return Built(net, nodes, links, origins, dests, desc)
